@@ -80,7 +80,14 @@ def gen_history(rng, fam):
             run['plan'] = [{'kind': 'crash', 'file': rng.randrange(0, ntask),
                             'byte': rng.choice((0, 1, 20, 60, 10 ** 6))}]
         runs.append(run)
+    for tsk in tasks:
+        # a task that hands back a copy of its own entry (status and clocks
+        # of its previous run included) along with its new results
+        tsk['echo'] = rng.random() < 0.15
     return {'kind': 'history', 'tasks': tasks, 'runs': runs,
+            # a coarse wall clock: the end of a task and the start of the next
+            # one may carry the same time stamp
+            'clock_quantum': rng.choice((None, None, None, 0.01, 0.25)),
             'late_master': rough or rng.random() < 0.15,
             'salt': rng.randrange(1 << 30),
             'tick': rng.choice(sched.TICKS),
@@ -205,10 +212,17 @@ def make_tasks_factory(scn, r, root, mods, log, counter):
             raise ProbeError('scripted failure')
         outdir = os.path.join(root, specs[i]['name'])
         os.makedirs(outdir, exist_ok=True)
-        upd = {specs[i]['name']: {
+        mine = {}
+        if specs[i].get('echo'):
+            try:
+                mine = dict(env[specs[i]['name']])
+            except (KeyError, TypeError):
+                mine = {}
+        mine.update({
             'result': 'res:%d:%d' % (i, exec_id), 'exec_id': exec_id,
             'output_dir': outdir,
-            'payload': {'run': r, 'deep': {'x': [exec_id, i]}}}}
+            'payload': {'run': r, 'deep': {'x': [exec_id, i]}}})
+        upd = {specs[i]['name']: mine}
         if out == 'failed':
             return upd, status_enum.FAILED
         if out == 'clobber':
@@ -324,6 +338,7 @@ def run_history(scn, chooser):
             lf = load.line_files(mods) if scn.get('linemode') else None
             sim = core.Sim(sub, tick=scn['tick'], t0=clock, line_files=lf,
                            keep_trace=False)
+            sim.clock_quantum = scn.get('clock_quantum')
             CURRENT['make'] = make_tasks_factory(scn, r, root, mods, log,
                                                  counter)
             holder = {}
@@ -611,6 +626,10 @@ def shrink(scn):
         new = copy.deepcopy(scn)
         new['linemode'] = False
         yield new
+    if scn.get('clock_quantum'):
+        new = copy.deepcopy(scn)
+        new['clock_quantum'] = None
+        yield new
     for r, run in enumerate(scn['runs']):
         if run['workers'] > 1:
             new = copy.deepcopy(scn)
@@ -643,8 +662,9 @@ def shrink(scn):
                 new = copy.deepcopy(scn)
                 new['tasks'][i][key].remove(j)
                 yield new
-        for field, plain in (('dur', 0), ('kind', 'task'), ('since', 0)):
-            if tsk[field] != plain:
+        for field, plain in (('dur', 0), ('kind', 'task'), ('since', 0),
+                             ('echo', False)):
+            if tsk.get(field, plain) != plain:
                 new = copy.deepcopy(scn)
                 new['tasks'][i][field] = plain
                 yield new
